@@ -56,6 +56,7 @@ class World:
         self.STRIP = z3.Function("str_strip", z3.StringSort(), z3.StringSort())
         self.INTPARSE = {}
         self.hooks = {}          # customisation points set by contracts
+        self.elem_kinds = {}     # typed symbolic lists: kind -> (wrap(it, z), unwrap(it, v) -> z | None)
         self.builtins = self._make_builtins()
         self._loading = set()
         self.boot = Interp(self, Path([], Results()), {"target": "<module-init>"})
